@@ -61,6 +61,7 @@ type c14Snapshot struct {
 	Tax         math.LegacyDec
 	Supply      sdk.Coins
 	DistrBal    sdk.Coins
+	FlagsDisagree []string // members whose bandtss record and tss record disagree about being active
 }
 
 type C14 struct {
@@ -90,7 +91,14 @@ func (m *C14) snapshot(e *Env) *c14Snapshot {
 			acc := sdk.MustAccAddressFromBech32(mm.Address)
 			s.Members[mm.Address] = app.BankKeeper.GetAllBalances(ctx, acc)
 			q := app.TSSKeeper.GetDEQueue(ctx, acc)
-			s.Eligible[mm.Address] = mm.IsActive && q.Tail > q.Head
+			// "active" is what the owning module (bandtss) records for the member of the current group; the tss member record
+			// carries a copy of the flag that reward allocation reads - a participant the owner has deactivated is inactive
+			// whatever the copy says
+			owner, err := app.BandtssKeeper.GetMember(ctx, acc, tss.GroupID(s.CurGroup))
+			s.Eligible[mm.Address] = err == nil && owner.IsActive && mm.IsActive && q.Tail > q.Head
+			if err == nil && owner.IsActive != mm.IsActive {
+				s.FlagsDisagree = append(s.FlagsDisagree, mm.Address)
+			}
 		}
 	}
 	s.OraclePct = app.OracleKeeper.GetParams(ctx).OracleRewardPercentage
